@@ -1,8 +1,11 @@
 import PlasVerif.Spec.NumberingRules
 /-! Helper lemmas for C08: the translated `numToRoman` produces the standard numeral.
     Structure: (1) every statement only appends to `roman` (prefix lemma), so the thousands prefix `"M"*n` is
-    carried through unchanged; (2) the remaining number is `x % 1000 < 1000` and the twelve statements map it to
-    its three decimal digits - a finite table checked by the kernel. -/
+    carried through unchanged; (2) the remaining number is `x % 1000 < 1000` and the twelve statements are three
+    scaled copies of one digit program, each turning one decimal digit into its roman digit (digit decomposition);
+    the kernel evaluation of the finite table is kept as a cross-check only. -/
+set_option linter.unusedSimpArgs false
+set_option linter.unusedVariables false
 namespace PlasVerif.Proofs.Roman
 open PlasVerif.Model.Counters PlasVerif.Spec.NumberingRules PlasVerif.Generated.Counters
 
@@ -35,20 +38,186 @@ theorem foldl_prefix (stmts : List (Bool × Nat × List Char)) : ∀ (acc : List
     rw [runStmt_prefix acc n s, ih, ih (runStmt ([], n) s).1]
     simp
 
+theorem whileGe_snd (k : Nat) (sym : List Char) : ∀ (f : Nat) (acc : List Char) (n : Nat),
+    (whileGe k sym f acc n).2 = (whileGe k sym f [] n).2 := by
+  intro f acc n; rw [whileGe_prefix]
+
+theorem runStmt_snd (acc : List Char) (n : Nat) (s : Bool × Nat × List Char) :
+    (runStmt (acc, n) s).2 = (runStmt ([], n) s).2 := by
+  rw [runStmt_prefix]
+
+theorem foldl_snd (stmts : List (Bool × Nat × List Char)) : ∀ (acc : List Char) (n : Nat),
+    (stmts.foldl runStmt (acc, n)).2 = (stmts.foldl runStmt ([], n)).2 := by
+  induction stmts with
+  | nil => intro acc n; rfl
+  | cons s ss ih =>
+    intro acc n
+    simp only [List.foldl_cons]
+    rw [show runStmt (acc, n) s = ((runStmt (acc, n) s).1, (runStmt (acc, n) s).2) from rfl, ih,
+        show runStmt ([], n) s = ((runStmt ([], n) s).1, (runStmt ([], n) s).2) from rfl, ih (runStmt ([], n) s).1,
+        runStmt_snd]
+
 theorem repChars_thousands (n : Nat) : repChars romanThousand n = thousands n := by
   induction n with
   | zero => rfl
   | succ n ih => rw [repChars, ih]; simp [thousands, romanThousand]
 
-/-- the finite table: the twelve translated statements turn every number below 1000 into its three roman digits -/
+/-! ## digit decomposition
+
+The body of `numToRoman` after the thousands is three copies of one four-statement *digit program*
+`if ≥9 / while ≥5 / if ≥4 / while ≥1`, with all thresholds multiplied by 100, 10 and 1.  Running a statement whose
+threshold is a multiple `k*u` of the unit on a number `d*u + r` (`r < u`) does to `d` what the unscaled statement
+does, and carries `r` along (`runStmt_scale`); so each stage turns its decimal digit into the roman digit and hands
+the remainder to the next stage. -/
+
+/-- the digit program for the symbols of 1, 5 and 10 of a position -/
+def digitProg (one five ten : Char) : List (Bool × Nat × List Char) :=
+  [(false, 9, [one, ten]), (true, 5, [five]), (false, 4, [one, five]), (true, 1, [one])]
+
+def scale (u : Nat) (prog : List (Bool × Nat × List Char)) : List (Bool × Nat × List Char) :=
+  prog.map fun st => (st.1, st.2.1 * u, st.2.2)
+
+/-- the three scaled digit programs, hundreds, tens, units -/
+def stages : List (Bool × Nat × List Char) :=
+  scale 100 (digitProg 'C' 'D' 'M') ++ scale 10 (digitProg 'X' 'L' 'C') ++ scale 1 (digitProg 'I' 'V' 'X')
+
+theorem scale_ge (u k d r : Nat) (hr : r < u) : (d * u + r ≥ k * u) ↔ d ≥ k := by
+  constructor
+  · intro h
+    refine Nat.le_of_not_lt fun hlt => ?_
+    have h1 : (d + 1) * u ≤ k * u := Nat.mul_le_mul_right u hlt
+    have h2 : (d + 1) * u = d * u + u := Nat.succ_mul d u
+    omega
+  · intro h
+    have := Nat.mul_le_mul_right u h
+    omega
+
+theorem scale_sub (u k d r : Nat) (h : k ≤ d) : d * u + r - k * u = (d - k) * u + r := by
+  have h1 : k * u ≤ d * u := Nat.mul_le_mul_right u h
+  have h2 : (d - k) * u = d * u - k * u := Nat.sub_mul d k u
+  omega
+
+theorem whileGe_scale (u k : Nat) (sym : List Char) (hk : 0 < k) (r : Nat) (hr : r < u) :
+    ∀ (f2 f1 : Nat) (acc : List Char) (d : Nat), d ≤ f2 → d ≤ f1 →
+      whileGe (k * u) sym f1 acc (d * u + r) =
+        ((whileGe k sym f2 acc d).1, (whileGe k sym f2 acc d).2 * u + r) := by
+  intro f2
+  induction f2 with
+  | zero =>
+    intro f1 acc d h2 _
+    have hd : d = 0 := by omega
+    subst hd
+    have hlt : ¬ (0 * u + r ≥ k * u) := by
+      rw [scale_ge u k 0 r hr]; omega
+    cases f1 with
+    | zero => simp [whileGe]
+    | succ f1 => simp only [whileGe, hlt, if_false]
+  | succ f2 ih =>
+    intro f1 acc d h2 h1
+    by_cases hge : d ≥ k
+    · have hge' : d * u + r ≥ k * u := (scale_ge u k d r hr).mpr hge
+      cases f1 with
+      | zero =>
+        have : d = 0 := by omega
+        omega
+      | succ f1 =>
+        simp only [whileGe, hge, hge', if_true]
+        rw [scale_sub u k d r hge]
+        exact ih f1 (acc ++ sym) (d - k) (by omega) (by omega)
+    · have hlt' : ¬ (d * u + r ≥ k * u) := by rw [scale_ge u k d r hr]; exact hge
+      cases f1 with
+      | zero => simp [whileGe, hge]
+      | succ f1 => simp only [whileGe, hge, hlt', if_false]
+
+theorem runStmt_scale (u : Nat) (r : Nat) (hr : r < u) (acc : List Char) (d : Nat) (w : Bool) (k : Nat) (sym : List Char)
+    (hk : 0 < k) :
+    runStmt (acc, d * u + r) (w, k * u, sym) =
+      ((runStmt (acc, d) (w, k, sym)).1, (runStmt (acc, d) (w, k, sym)).2 * u + r) := by
+  cases w with
+  | true =>
+    simp only [runStmt, if_true]
+    have hd : d ≤ d * u + r := by
+      have : 0 < u := by omega
+      have := Nat.le_mul_of_pos_right d this
+      omega
+    exact whileGe_scale u k sym hk r hr d (d * u + r) acc d (Nat.le_refl _) hd
+  | false =>
+    simp only [runStmt, Bool.false_eq_true, if_false]
+    by_cases hge : d ≥ k
+    · have hge' : d * u + r ≥ k * u := (scale_ge u k d r hr).mpr hge
+      simp only [hge, hge', if_true, scale_sub u k d r hge]
+    · have hlt' : ¬ (d * u + r ≥ k * u) := by rw [scale_ge u k d r hr]; exact hge
+      simp only [hge, hlt', if_false]
+
+theorem foldl_scale (u : Nat) (r : Nat) (hr : r < u) : ∀ (prog : List (Bool × Nat × List Char)),
+    (∀ st ∈ prog, 0 < st.2.1) → ∀ (acc : List Char) (d : Nat),
+    (scale u prog).foldl runStmt (acc, d * u + r) =
+      ((prog.foldl runStmt (acc, d)).1, (prog.foldl runStmt (acc, d)).2 * u + r) := by
+  intro prog
+  induction prog with
+  | nil => intro _ acc d; rfl
+  | cons st prog ih =>
+    intro hpos acc d
+    obtain ⟨w, k, sym⟩ := st
+    simp only [scale, List.map_cons, List.foldl_cons]
+    rw [runStmt_scale u r hr acc d w k sym (hpos (w, k, sym) List.mem_cons_self)]
+    exact ih (fun st hst => hpos st (List.mem_cons_of_mem _ hst)) _ _
+
+/-- one decimal digit through the digit program (ten cases, each a closed computation) -/
+theorem digitProg_table (one five ten : Char) : ∀ d, d < 10 →
+    (digitProg one five ten).foldl runStmt ([], d) = (digit one five ten d, 0) := by
+  intro d hd
+  have : d = 0 ∨ d = 1 ∨ d = 2 ∨ d = 3 ∨ d = 4 ∨ d = 5 ∨ d = 6 ∨ d = 7 ∨ d = 8 ∨ d = 9 := by omega
+  rcases this with rfl | rfl | rfl | rfl | rfl | rfl | rfl | rfl | rfl | rfl <;> rfl
+
+theorem digitProg_pos (one five ten : Char) : ∀ st ∈ digitProg one five ten, 0 < st.2.1 := by
+  intro st hst
+  simp only [digitProg, List.mem_cons, List.not_mem_nil, or_false] at hst
+  rcases hst with rfl | rfl | rfl | rfl <;> simp
+
+/-- one stage: the digit `d` of the current unit becomes its roman digit, the remainder `r` is handed on -/
+theorem stage (u : Nat) (one five ten : Char) (acc : List Char) (d r : Nat) (hd : d < 10) (hr : r < u) :
+    (scale u (digitProg one five ten)).foldl runStmt (acc, d * u + r) = (acc ++ digit one five ten d, r) := by
+  rw [foldl_scale u r hr _ (digitProg_pos one five ten)]
+  have h1 := foldl_prefix (digitProg one five ten) acc d
+  have h2 := digitProg_table one five ten d hd
+  have h3 : ((digitProg one five ten).foldl runStmt (acc, d)).2 = ((digitProg one five ten).foldl runStmt ([], d)).2 := by
+    exact foldl_snd (digitProg one five ten) acc d
+  rw [h1, h3, h2]; simp
+
+/-- the three low decimal digits, structurally, for any statement list that is the three scaled digit programs -/
+theorem low_table_structural (stmts : List (Bool × Nat × List Char)) (hs : stmts = stages) :
+    ∀ m, m < 1000 → (stmts.foldl runStmt ([], m)).1 = romanLow m := by
+  intro m hm
+  have e1 : m = (m / 100) * 100 + m % 100 := by omega
+  have e2 : m % 100 = (m / 10 % 10) * 10 + m % 10 := by omega
+  have e3 : m % 10 = (m % 10) * 1 + 0 := by omega
+  rw [hs, stages, List.foldl_append, List.foldl_append]
+  conv => lhs; rw [e1]
+  rw [stage 100 'C' 'D' 'M' [] (m / 100) (m % 100) (by omega) (by omega)]
+  conv => lhs; rw [e2]
+  rw [stage 10 'X' 'L' 'C' _ (m / 10 % 10) (m % 10) (by omega) (by omega)]
+  conv => lhs; rw [e3]
+  rw [stage 1 'I' 'V' 'X' _ (m % 10) 0 (by omega) (by omega)]
+  have : m / 100 % 10 = m / 100 := by omega
+  simp [romanLow, this]
+
+/-- the same table by kernel evaluation of the regenerated statements, whatever their shape (this is the version
+    `roman_standard` rests on, so that a behaviour-preserving rewrite of `numToRoman` - e.g. an `if` turned into a
+    `while` that runs at most once - does not break the proof) -/
 theorem low_table : ∀ m, m < 1000 → (romanStmts.foldl runStmt ([], m)).1 = romanLow m := by
   decide +kernel
 
-theorem romanChars_nat (n : Nat) :
+theorem romanChars_nat_of (n : Nat)
+    (hlow : ∀ m, m < 1000 → (romanStmts.foldl runStmt ([], m)).1 = romanLow m) :
     PlasVerif.Model.Counters.romanChars (n : Int) = PlasVerif.Spec.NumberingRules.romanChars n := by
   have h1 : ((n : Int) / (romanDiv : Int)).toNat = n / 1000 := by simp [romanDiv]; omega
   have h2 : ((n : Int) % (romanDiv : Int)).toNat = n % 1000 := by simp [romanDiv]; omega
   simp only [PlasVerif.Model.Counters.romanChars, PlasVerif.Spec.NumberingRules.romanChars, h1, h2]
-  rw [foldl_prefix, repChars_thousands, low_table _ (Nat.mod_lt _ (by decide))]
+  rw [foldl_prefix, repChars_thousands, hlow _ (Nat.mod_lt _ (by decide))]
+
+theorem romanChars_nat (n : Nat) :
+    PlasVerif.Model.Counters.romanChars (n : Int) = PlasVerif.Spec.NumberingRules.romanChars n :=
+  romanChars_nat_of n low_table
 
 end PlasVerif.Proofs.Roman
